@@ -43,7 +43,10 @@ def gen(rng: random.Random, n: int) -> List[Dict[str, Any]]:
         elif op == "matmul":
             bt = rng.choice([[], [2], [4], [2, 3], [6, 1], [3, 2, 2]])
             a, b, c = rng.choice(dims), rng.choice(dims), rng.choice(dims)
-            out.append({"cfg": {"op": op, "constraint": None, "batch": bt, "a": a, "b": b, "c": c}, "c": {"op": op, "a": a, "b": b, "c": c}})
+            vec = rng.choice([None, None, None, "left", "right", "both"])    # 1-D operands of torch.matmul: the missing dim counts as size 1
+            if vec:
+                bt, a, c = [], (1 if vec in ("left", "both") else a), (1 if vec in ("right", "both") else c)
+            out.append({"cfg": dict({"op": op, "constraint": None, "batch": bt, "a": a, "b": b, "c": c}, **({"vec": vec} if vec else {})), "c": {"op": op, "a": a, "b": b, "c": c}})
         elif op == "conv1d":
             g = rng.choice([1, 1, 2, 3])
             k, st, dil = rng.choice([1, 2, 3, 4, 5]), rng.choice([1, 2, 3]), rng.choice([1, 2])
@@ -117,8 +120,9 @@ def measured_counts(item: Dict[str, Any]) -> Dict[str, Fraction]:
         gx, gw, gb = torch.autograd.grad(y, [x, w, b], torch.ones_like(y))
         R = {"out": fr(y.flatten()[0]), "input": fr(gx.flatten()[0]), "weight": fr(gw.flatten()[0]), "bias": fr(gb.flatten()[0])}
     elif op == "matmul":
-        l = one(*(cfg["batch"] + [cfg["a"], cfg["b"]])).requires_grad_(True)
-        r = one(*(cfg["batch"] + [cfg["b"], cfg["c"]])).requires_grad_(True)
+        vec = cfg.get("vec")
+        l = one(*([cfg["b"]] if vec in ("left", "both") else cfg["batch"] + [cfg["a"], cfg["b"]])).requires_grad_(True)
+        r = one(*([cfg["b"]] if vec in ("right", "both") else cfg["batch"] + [cfg["b"], cfg["c"]])).requires_grad_(True)
         y = torch.matmul(l, r)
         gl, gr = torch.autograd.grad(y, [l, r], torch.ones_like(y))
         R = {"out": fr(y.flatten()[0]), "left": fr(gl.flatten()[0]), "right": fr(gr.flatten()[0])}
